@@ -24,6 +24,7 @@ type Inst struct {
 	NS      string
 	PartNum int
 	Nodes   []*node.NamespaceNode
+	nextGroup int
 }
 
 // Start launches the server. portBase..portBase+2 are used. engine: "mem" | "pebble" | "rocksdb".
@@ -102,6 +103,63 @@ func StartWithout(portBase int, ns string, partNum int, engine string, missing i
 		time.Sleep(50 * time.Millisecond)
 	}
 	return inst, nil
+}
+
+// InitPartition initialises and starts one more partition replica of namespace base `ns` configured
+// with `pnum` partitions on the running server and waits until it leads (single replica).
+func (i *Inst) InitPartition(ns string, pid int, pnum int) error {
+	var replica node.ReplicaInfo
+	replica.NodeID = 1
+	replica.ReplicaID = 1
+	replica.RaftAddr = fmt.Sprintf("http://127.0.0.1:%d", i.Port+2)
+	nsConf := node.NewNSConfig()
+	nsConf.Name = ns + "-" + strconv.Itoa(pid)
+	nsConf.BaseName = ns
+	nsConf.EngType = rockredis.EngType
+	nsConf.PartitionNum = pnum
+	nsConf.Replicator = 1
+	nsConf.RaftGroupConf.GroupID = uint64(5000 + i.nextGroup)
+	i.nextGroup++
+	nsConf.RaftGroupConf.SeedNodes = append(nsConf.RaftGroupConf.SeedNodes, replica)
+	n, err := i.S.InitKVNamespace(1, nsConf, false)
+	if err != nil {
+		return err
+	}
+	if err := n.Start(false); err != nil {
+		return err
+	}
+	deadline := time.Now().Add(20 * time.Second)
+	for !n.Node.IsLead() || !n.IsReady() {
+		if time.Now().After(deadline) {
+			return fmt.Errorf("inconclusive: partition %s-%d not ready in time", ns, pid)
+		}
+		time.Sleep(20 * time.Millisecond)
+	}
+	return nil
+}
+
+// DestroyPartition destroys the local replica and waits until it is unregistered.
+func (i *Inst) DestroyPartition(ns string, pid int) error {
+	full := ns + "-" + strconv.Itoa(pid)
+	n := i.S.GetNamespaceFromFullName(full)
+	if n == nil {
+		return fmt.Errorf("partition not found: %s", full)
+	}
+	if err := n.Destroy(); err != nil {
+		return err
+	}
+	deadline := time.Now().Add(20 * time.Second)
+	for {
+		if i.S.GetNsMgr().GetNamespaceNode(full) == nil {
+			if _, ok := i.S.GetNsMgr().GetNamespaces()[full]; !ok {
+				return nil
+			}
+		}
+		if time.Now().After(deadline) {
+			return fmt.Errorf("inconclusive: partition %s not unregistered in time", full)
+		}
+		time.Sleep(20 * time.Millisecond)
+	}
 }
 
 func (i *Inst) Conn() (*goredis.PoolConn, error) {
